@@ -918,8 +918,20 @@ def splice_fn(text: str, sp: Splice, item: str, vacuity: bool = False) -> str:
                 raise ExtractError(f"{item}: closure #{n} not found (function has {len(cl)})")
             hf, hl, bf, bl = cl[n]
             src_names = _param_names(text[ct[hf].start:ct[hl].end])
-            if src_names != _param_names(hdr) and not all(x.startswith("_") for x in src_names):
-                raise ExtractError(f"{item}: closure #{n} binds {src_names}, its contract header binds {_param_names(hdr)}: closure structure changed")
+            hdr_names = _param_names(hdr)
+            if src_names != hdr_names and not all(x.startswith("_") for x in src_names):
+                simple = lambda xs: all(re.fullmatch(r"[A-Za-z_][A-Za-z0-9_]*", x) for x in xs)
+                if len(src_names) == len(hdr_names) and simple(src_names) and simple(hdr_names) and len(set(src_names)) == len(src_names) \
+                        and not any(re.search(r"\b" + re.escape(nm) + r"\b", hdr) for nm in src_names if nm not in hdr_names):
+                    # the closure's parameters were only renamed: the header follows (positional renaming)
+                    tmp = hdr
+                    for k2, (o, nw) in enumerate(zip(hdr_names, src_names)):
+                        tmp = re.sub(r"\b" + re.escape(o) + r"\b", f"\x00{k2}\x00", tmp)
+                    for k2, nw in enumerate(src_names):
+                        tmp = tmp.replace(f"\x00{k2}\x00", nw)
+                    hdr = tmp
+                else:
+                    raise ExtractError(f"{item}: closure #{n} binds {src_names}, its contract header binds {hdr_names}: closure structure changed")
             fr.replace(ct[hf].start, ct[hl].end, hdr + " ")
             if ct[bf].text != "{":
                 fr.insert(ct[bf].start, "{ ")
